@@ -310,6 +310,12 @@ class RunClass(Run):
             if ps is not None and n >= 4:
                 for i, k in enumerate(sgn):
                     self.bin("signbit%d" % i, k)      # every sign bit individually fair
+            if n >= 4 and s in ("rcm", "t:rcm", "rcliff", "t:rcliff"):
+                # every image of a uniformly random Clifford is marginally uniform over the 4^N-1
+                # non-identity strings: letter frequencies per (row, site) have known probabilities
+                for i in range(2 * n):
+                    for j in range(n):
+                        self.bin("letter:r%d:q%d" % (i, j), cls[i][j])
             return (cls, sgn)
         if kind == "state":
             gs, ps, r = raw[1], raw[2], raw[3]
@@ -410,6 +416,7 @@ def batch_oracles(merged, mode):
     for (sampler, n, regime, stat, b), c in tot.items():
         groups.setdefault((sampler, n, regime, stat), Counter())[b] += c
     out = []
+    evaluated = [0]
     for (sampler, n, regime, stat), cnt in sorted(groups.items(), key=lambda kv: repr(kv[0])):
         total = sum(cnt.values())
         name = "c16.uniform:%s:N%d:%s:%s" % (sampler, n, regime, stat)
@@ -420,6 +427,7 @@ def batch_oracles(merged, mode):
                 continue
             k = cnt.get(True, 0)
             z = abs(k - total * p0) / (total * p0 * (1 - p0)) ** 0.5
+            evaluated[0] += 1
             out.append((name, z <= 6.2, {"statistic": "product fraction (z-score)", "sampler": sampler, "N": n,
                                          "regime": regime, "n": total, "products": k, "expected": total * p0,
                                          "z": z, "threshold_sigma": 6.2}))
@@ -428,6 +436,21 @@ def batch_oracles(merged, mode):
         bins = EXPECTED_BINS.get((stat, n, fam)) or EXPECTED_BINS.get((stat, n, "any"))
         if stat.startswith("signbit"):
             bins = 2
+        if stat.startswith("letter:"):
+            if total < 400:
+                continue
+            pI = (4.0 ** (n - 1) - 1) / (4.0 ** n - 1)
+            pL = 4.0 ** (n - 1) / (4.0 ** n - 1)
+            exp = {0: total * pI, 1: total * pL, 2: total * pL, 3: total * pL}
+            x2 = sum((cnt.get(k, 0) - e) ** 2 / e for k, e in exp.items())
+            thr = _threshold(3)
+            evaluated[0] += 1
+            if x2 > thr or stat.endswith(":r0:q%d" % (n - 1)):   # report one representative, and all failures
+                out.append((name, x2 <= thr, {"statistic": "chi2 of the letter at one (row, site) against the uniform-image law",
+                                             "sampler": sampler, "N": n, "regime": regime, "stat": stat, "n": total,
+                                             "counts": [cnt.get(k, 0) for k in range(4)], "chi2": round(x2, 2),
+                                             "threshold": round(thr, 2), "false_alarm_level": 1e-9}))
+            continue
         if bins is None:
             continue
         if len(cnt) > bins:
@@ -439,9 +462,14 @@ def batch_oracles(merged, mode):
             continue
         x2 = sum((c - e) ** 2 / e for c in cnt.values()) + (bins - len(cnt)) * e
         thr = _threshold(bins - 1)
+        evaluated[0] += 1
         out.append((name, x2 <= thr, {"statistic": "chi2", "sampler": sampler, "N": n, "regime": regime, "stat": stat,
                                       "n": total, "bins": bins, "bins_seen": len(cnt), "chi2": round(x2, 2),
                                       "threshold": round(thr, 2), "false_alarm_level": 1e-9}))
+    out.append(("c16.statistics_summary", True,
+                {"statistic": "summary", "statistics_evaluated": evaluated[0], "per_statistic_false_alarm_level": 1e-9,
+                 "union_bound_false_alarm_per_batch": evaluated[0] * 1e-9,
+                 "note": "per-(row,site) letter statistics are listed only for the last site of row 0 and when they fail"}))
     return out
 
 
